@@ -236,6 +236,34 @@ def queue_cases(rng, n):
     return out
 
 
+def io_both_cases(rng, n):
+    """One poll event that is readable and writable: requests queued behind a scripted EAGAIN (POLLOUT
+    armed), receiving started and a datagram injected, then uv_run; the recv callback of that event
+    closes the handle / stops receiving / sends / does nothing.  The status rule decides (UV_ECANCELED
+    for requests not handed to the OS when the handle is closed first)."""
+    out = []
+    for i in range(n):
+        fam, conn, mm = rng.choice([4, 6]), rng.choice([0, 1]), rng.choice([0, 1])
+        ad = 0 if conn else rng.choice([1, 2])
+        k = rng.choice([1, 2, 3, 5, 21, 24])
+        plan = ["e%d" % rng.choice([EAGAIN, ENOBUFS])] + (send_plan(rng, 4, 0.3) if rng.random() < 0.3 else [])
+        ops = ["p"] if rng.random() < 0.5 else []
+        ops += ["s%d,%d" % (small_len(rng), ad) for _ in range(k)]
+        if "p" not in ops:
+            ops.append("p")
+        ninj = rng.choice([1, 1, 2, 3, 25])
+        ops += ["g", "i" + ",".join(str(small_len(rng)) for _ in range(ninj)), "R", "g", "R", "g", "x", "R", "g"]
+        what = ["x", "x", "x g", "q", "q p", "", "s%d,%d g" % (small_len(rng), ad), "g x"][i % 8]
+        pos = rng.choice([0, 0, 0, 1, 2]) if ninj > 1 else 0
+        rb = [""] * pos + [what]
+        if rng.random() < 0.3:
+            rb += ["g", "x"]
+        allocs = [rng.choice([65536, 131072, 20 * 65536])] * 40 if mm else [rng.choice([100, 1500, 65536])] * 40
+        behs = [" ".join(cb_ops(rng, conn)) for _ in range(rng.choice([0, 0, 3]))]
+        out.append(mk_case(fam, conn, mm, allocs, plan, [], ops, behs, rb))
+    return out
+
+
 ALLOC_SIZES = [1, 2, 5, 6, 7, 64, 100, 1500, 65535, 65536, 65537, 100000, 131072, 200000,
                5 * 65536, 19 * 65536, 20 * 65536, 20 * 65536 + 5, 21 * 65536]
 
@@ -357,6 +385,11 @@ FIXED_CASES = [
     mk_case(4, 0, 0, [], [], [], ["s1025,1,1025", "g", "R", "g", "s1024,1,1024", "R", "g", "t1030,1,1030", "t1024,2,1024",
                                   "u0,1,1500:1500", "u0,1,7,8:1025,9", "u0,1,7:1024,1025:1025,9", "g", "x", "R"], ["g", "g"], pat=0),
     mk_case(6, 1, 0, [], ["e11"], [], ["s6,0", "s100,0,2048", "s7,0", "g", "R", "g", "R", "g", "x", "R"], ["g", "g", "g"], pat=1),
+    # one poll event readable and writable, the recv callback closes the handle: the queued requests
+    # are cancelled, uv__udp_io does not touch the closed handle's send queue
+    mk_case(4, 0, 0, [1500] * 8, ["e11"], [], ["p", "s8,1", "s9,1", "s10,1", "g", "i7", "R", "g", "R", "g"], ["g", "g", "g"], ["x g"], pat=0),
+    mk_case(6, 1, 1, [131072] * 8, ["e105"], [], ["s8,0", "s9,0", "p", "g", "i7,8,9", "R", "g", "R", "g"], ["g", "g"], ["", "x", "g"], pat=1),
+    mk_case(4, 0, 0, [1500] * 8, ["e11"], [], ["p", "s8,2", "s9,1", "g", "i7", "R", "g", "x", "R", "g"], ["g", "g"], ["q g"], pat=2),
     # requests full of 0x5A / 0xFF on a connected handle
     mk_case(4, 1, 0, [], [], [], ["s9,0", "s9,0", "R", "g", "x", "R"], pat=1),
     mk_case(6, 1, 0, [], ["e11"], [], ["s9,0", "s9,0", "s9,0", "R", "g", "x", "R"], pat=2),
@@ -496,7 +529,9 @@ def udp_monitor(case, line):
             elif status == 0:
                 bad.append((None, "request %d reported status 0 but its datagram %d was never handed to the OS" % (i, sq)))
             elif not (errs.get(sq) == status or (status == ECANCELED and closed)):
-                bad.append((None, "request %d reported status %d; OS error %s, closed=%s" % (i, status, errs.get(sq), closed)))
+                bad.append((None, "request %d reported status %d; OS error %s, closed=%s%s"
+                            % (i, status, errs.get(sq), closed,
+                               " (not handed to the OS when the handle was closed: UV_ECANCELED expected)" if closed else "")))
         elif c == "g":
             size, count, act = [int(x) for x in a.split(",")]
             if count != len(owed) or size != sum(v[1] for v in owed.values()):
@@ -707,6 +742,10 @@ def main():
     a, _ = run("udp datagrams of ~IOV_MAX buffers = Model/Udp.v", ic)
     if a:
         chk.sample({"case": ic[0][:200], "impl": a[0][:300]})
+    bc = io_both_cases(chk.rng, 4000 if thorough else 600)
+    a, _ = run("udp readable+writable event, callback closes = Model/Udp.v", bc)
+    if a:
+        chk.sample({"case": bc[0][:300], "impl": a[0][:300]})
     dc = dest_cases(chk.rng, 8000 if thorough else 1000)
     a, _ = run("udp destinations = Model/Udp.v", dc)
     if a:
